@@ -106,6 +106,13 @@ def install_trace_contracts():
 
     for con in (upd, dis, rst):
         wrap_modifies(con)
+        if con is dis:
+            continue
+        rel = dict(getattr(con, "relevant", None) or {})
+        for nm in ("notified-prefix-in-subscription-order", "every-subscriber-notified-once-in-order",
+                   "every-subscriber-reset-once-in-order"):
+            rel[nm] = ["R1-shape"]
+        con.relevant = rel
 
     # --- _update_tracking_attributes
     old_loops_upd = type(upd).loops.fget(upd)
